@@ -611,9 +611,18 @@ def rule_queen(ctx):
     r = ctx.sym(b).local(0)
     parts = or_terms(r)
     names = sorted(p[1] for p in parts if p[0] == "call")
-    ok = names == ["board::piece::bishop::Bishop::get_attacks_wrapper", "board::piece::rook::Rook::get_attacks_wrapper"] and all(p[2] == (("arg", "square"), ("arg", "blockers")) for p in parts)
+    # each slider through its wrapper, or through the magic lookup the wrapper forwards to
+    via = {}
+    for piece, (ty, impl, dirs) in PIECES.items():
+        for nm in names:
+            if nm in (ty + "::get_attacks_wrapper", impl + "::get_attacks"):
+                via[piece] = nm
+    ok = len(names) == 2 and len(via) == 2 and sorted(via.values()) == names and all(p[2] == (("arg", "square"), ("arg", "blockers")) for p in parts)
     ctx.check(ok, "queen:rook-or-bishop", "Queen::get_attacks = Rook attacks | Bishop attacks on the same (square, blockers)", b.where(0), bad_what="Queen::get_attacks is `%s`" % expr_str(r)[:160])
     for piece, (ty, impl, dirs) in PIECES.items():
+        if (ty + "::get_attacks_wrapper") not in ix.bodies and via.get(piece) == impl + "::get_attacks":
+            ctx.ok("%s:wrapper" % piece, "no wrapper: the queen calls the magic lookup itself", b.where(0))
+            continue
         wb = ctx.body(ty + "::get_attacks_wrapper")
         r = ctx.sym(wb).local(0)
         ctx.check(r == ("call", impl + "::get_attacks", (("arg", "square"), ("arg", "blockers"))), "%s:wrapper" % piece, "get_attacks_wrapper forwards to the magic lookup", wb.where(0), bad_what="wrapper is `%s`" % expr_str(r))
